@@ -1302,3 +1302,114 @@ Proof.
   intros Hd Hf Hlen HN Hx. rewrite (pipe_refines_ideal_all ops x i f p Hd Hf Hlen HN Hx), world_rib_is_run.
   apply rib_lookup_spec.
 Qed.
+
+(* ================================================================== *)
+(* 9. isolation by wire identity (C02)                                  *)
+(* ================================================================== *)
+
+Definition ends_session (o : wop) : bool :=
+  match o with
+  | WDisconnect _ | WBgpClose _ | WMsg _ (MPeerDown _) | WMsg _ MTerm => true
+  | _ => false
+  end.
+
+(* the wire identities a session-ending op names, given which sessions are live *)
+Definition named (sw : sworld) (o : wop) (x : wid) : bool :=
+  match o with
+  | WDisconnect k => bool_decide (is_Some (s_sess sw !! k)) && bool_decide (x.1 = k)
+  | WBgpClose b => match s_bgp sw !! b with Some c => bool_decide (x = bgp_wid b c) | None => false end
+  | WMsg k (MPeerDown p) =>
+      match s_sess sw !! k with
+      | Some ((PDump | PUpd), up, _) => bool_decide (p ∈ up) && bool_decide (x = (k, p))
+      | _ => false
+      end
+  | WMsg k MTerm =>
+      match s_sess sw !! k with
+      | Some ((PDump | PUpd), up, _) => bool_decide (x.1 = k /\ x.2 ∈ up)
+      | _ => false
+      end
+  | _ => false
+  end.
+
+(* ideal RIB: a session-ending op turns exactly the entries of the identities it names to
+   withdrawn (attributes kept) and leaves every other entry as it was *)
+Theorem session_end_exact sw o f p x :
+  ends_session o = true ->
+  s_rib (sstep sw o).1 !! (f, p, x) =
+  if named sw o x then wdn (s_rib sw !! (f, p, x)) else s_rib sw !! (f, p, x).
+Proof.
+  intros He. destruct o as [k|k m|k|b|b u|b|af pfx|k]; try discriminate; cbn [sstep named].
+  - destruct m as [| |q|q e|q|q u]; try discriminate.
+    + destruct (s_sess sw !! k) as [[[ph up] ever]|]; [|reflexivity].
+      destruct ph; cbn [fst s_rib]; rewrite ?ideal_down_lookup; reflexivity.
+    + destruct (s_sess sw !! k) as [[[ph up] ever]|]; [|reflexivity].
+      destruct ph; cbn [fst s_rib]; try reflexivity;
+        (destruct (bool_decide (q ∈ up)); cbn [fst s_rib andb]; rewrite ?ideal_down_lookup; reflexivity).
+  - destruct (s_sess sw !! k) as [st|]; cbn [fst s_rib].
+    + rewrite bool_decide_true by eauto. rewrite ideal_down_lookup. reflexivity.
+    + rewrite bool_decide_false by (intros [? ?]; discriminate). reflexivity.
+  - destruct (s_bgp sw !! b) as [c|]; cbn [fst s_rib]; rewrite ?ideal_down_lookup; reflexivity.
+Qed.
+
+Lemma ends_keep_ids w o : ends_session o = true -> w_ids (wstep w o).1 = w_ids w.
+Proof.
+  intros He. destruct o as [k|k m|k|b|b u|b|af pfx|k]; try discriminate; cbn [wstep].
+  - destruct (w_routers w !! k) as [[rid s]|]; [|reflexivity].
+    destruct (sm_step (w_reg w) rid s m) as [[r' s'] out]. destruct m; try discriminate; reflexivity.
+  - destruct (w_routers w !! k) as [[rid s]|]; reflexivity.
+  - destruct (w_bgp w !! b) as [[id c]|]; reflexivity.
+Qed.
+
+(* pipeline: read per ingress id, the updates a session-ending op sends to the RIB withdraw
+   exactly the routes of the wire identities the op names - unless ids are shared (K2) *)
+Theorem pipe_session_end_isolated ops o x i f p :
+  disciplined (ops ++ [o]) = true -> N.of_nat (length (ops ++ [o])) < two32 - 2 -> f < 4 ->
+  ends_session o = true ->
+  NoShare (w_ids (run_world ops).1) -> id_of (w_ids (run_world ops).1) x = Some i ->
+  spec_lookup (evs_of (world_updates (ops ++ [o]))) (f, p, i) =
+  if named (run_sworld ops).1 o x then wdn (spec_lookup (evs_of (world_updates ops)) (f, p, i))
+  else spec_lookup (evs_of (world_updates ops)) (f, p, i).
+Proof.
+  intros Hd Hlen Hf He HN Hx.
+  assert (Hids : w_ids (run_world (ops ++ [o])).1 = w_ids (run_world ops).1)
+    by (rewrite run_world_snoc; cbn [fst]; apply ends_keep_ids, He).
+  assert (Hd0 : disciplined ops = true).
+  { unfold disciplined in *. rewrite forallb_app in Hd. apply andb_true_iff in Hd as [Hd _]. exact Hd. }
+  assert (Hlen0 : N.of_nat (length ops) < two32 - 2) by (rewrite app_length in Hlen; cbn [length] in Hlen; lia).
+  rewrite <- (pipe_refines_ideal (ops ++ [o]) x i f p Hd Hlen Hf) by (rewrite Hids; assumption).
+  rewrite <- (pipe_refines_ideal ops x i f p Hd0 Hlen0 Hf HN Hx).
+  rewrite run_sworld_snoc. cbn [fst]. apply session_end_exact, He.
+Qed.
+
+(* ---- a non-trivial history that meets every premise ---- *)
+Definition compose_example : list wop :=
+  [WConnect 0; WMsg 0 MInit; WMsg 0 (MPeerUp pA false);
+   WMsg 0 (MRoute pA (Some (URoutes 0 [1; 2] 3 0 [])));
+   WBgpOpen 0; WBgpUpdate 0 (Some (URoutes 0 [1] 4 0 []));
+   WMsg 0 (MPeerDown pA); WBgpClose 0; WBgpOpen 0; WBgpUpdate 0 (Some (URoutes 0 [2] 5 0 [1]));
+   WDisconnect 0; WConnect 0; WMsg 0 MInit; WMsg 0 (MPeerUp pA false);
+   WMsg 0 (MRoute pA (Some (URoutes 0 [1] 6 0 [])))].
+
+Lemma NoShare_dec ids :
+  forallb (fun a : wid * N => forallb (fun b : wid * N => implb (N.eqb a.2 b.2) (bool_decide (a.1 = b.1))) ids) ids = true ->
+  NoShare ids.
+Proof.
+  intros H w1 w2 i H1 H2. rewrite forallb_forall in H.
+  apply elem_of_list_In in H1, H2. specialize (H _ H1). rewrite forallb_forall in H. specialize (H _ H2).
+  cbn [fst snd] in H. rewrite N.eqb_refl in H. cbn [implb] in H. apply bool_decide_eq_true in H. exact H.
+Qed.
+
+Lemma compose_example_ok :
+  disciplined compose_example = true /\ fams_ok compose_example = true /\
+  N.of_nat (length compose_example) < two32 - 2 /\
+  NoShare (w_ids (run_world compose_example).1) /\
+  w_ids (run_world compose_example).1 = [((0, pA), 3); (bgp_wid 0 0, 4); (bgp_wid 0 1, 5)] /\
+  s_rib (run_sworld compose_example).1 !! (0, 1, (0, pA)) = Some (true, 6) /\
+  rib_lookup (w_rib (run_world compose_example).1) (0, 1, 3) = Some (false, 6) /\
+  s_rib (run_sworld compose_example).1 !! (0, 2, bgp_wid 0 1) = Some (true, 5) /\
+  rib_lookup (w_rib (run_world compose_example).1) (0, 2, 5) = Some (true, 5).
+Proof.
+  split; [reflexivity|]. split; [reflexivity|]. split; [vm_compute; reflexivity|].
+  split; [apply NoShare_dec; vm_compute; reflexivity|].
+  split; [vm_compute; reflexivity|]. repeat split; vm_compute; reflexivity.
+Qed.
